@@ -1,3 +1,4 @@
 import EdzedProofs.Basic
 import EdzedProofs.Counter
+import EdzedProofs.Init
 import EdzedProofs.Simulate
